@@ -412,10 +412,34 @@ def _recip(a):
     return _divh(1, a)
 
 
+SHADOW = {}     # data_ptr -> (real tensor, object array): symbolic content written IN PLACE into a real tensor
+
+
+def dest(a):
+    """object array that receives an in-place write into `a` (a SymTensor's contents, or the shadow of a real tensor)"""
+    if isinstance(a, SymTensor):
+        return a._e
+    key = a.data_ptr()
+    if key not in SHADOW:
+        SHADOW[key] = (a, E(a).copy())
+    return SHADOW[key][1]
+
+
+def effective(t):
+    """contents of a tensor as the code under test left them: proxy contents, shadow contents, or the real values"""
+    if isinstance(t, SymTensor):
+        return t._e
+    hit = SHADOW.get(t.data_ptr())
+    if hit is not None and tuple(hit[1].shape) == tuple(t.shape):
+        return hit[1]
+    return E(t)
+
+
 def _inplace(h):
     def f(a, *args, **kw):
         r = h(a, *args, **kw)
-        a._e[...] = np.broadcast_to(r._e, a._e.shape)
+        d = dest(a)
+        d[...] = np.broadcast_to(E(r), d.shape)
         return a
     return f
 
@@ -429,10 +453,11 @@ reg("div_", "__itruediv__")(_inplace(_div))
 @reg("copy_")
 def _copy_(a, b, non_blocking=False):
     src = E(b)
+    d = dest(a)
     if isinstance(src, np.ndarray):
-        a._e[...] = np.broadcast_to(src, a._e.shape)
+        d[...] = np.broadcast_to(src, d.shape)
     else:
-        a._e[...] = src
+        d[...] = src
     return a
 
 
@@ -468,6 +493,57 @@ for _n in ("exp", "log", "tanh", "sqrt"):
             return mk(_v1(lambda x: uf_apply(n, x), a._e), a.dtype if a.dtype in FLOATS else torch.float32)
         return h
     reg(_n)(_mkuf(_n))
+
+
+@reg("logsumexp")
+def _logsumexp(a, dim, keepdim=False):
+    ex = _v1(lambda x: uf_apply("exp", x), a._e)
+    sm = _reduce(_psum, ex, dim, keepdim)
+    return mk(_v1(lambda x: uf_apply("log", x), sm), a.dtype)
+
+
+# random fills: the harness supplies the variates (fresh symbols within the documented contract)
+class _Rng:
+    provider = None
+
+
+RNG = _Rng()
+
+
+@reg("normal_")
+def _normal_(a, mean=0, std=1, **k):
+    p = RNG.provider
+    if p is None:
+        raise Unsupported("normal_ on a SymTensor without an RNG provider")
+    d = dest(a)
+    d[...] = E(p("normal", tuple(d.shape), mean, std))
+    return a
+
+
+@reg("uniform_")
+def _uniform_(a, lo=0, hi=1, **k):
+    p = RNG.provider
+    if p is None:
+        raise Unsupported("uniform_ on a SymTensor without an RNG provider")
+    d = dest(a)
+    d[...] = E(p("uniform", tuple(d.shape), lo, hi))
+    return a
+
+
+@reg("rand_like")
+def _rand_like(a, **k):
+    p = RNG.provider
+    if p is None:
+        raise Unsupported("rand_like on a SymTensor without an RNG provider")
+    return mk(_full(E(p("uniform", tuple(a.shape), 0, 1))), a.dtype if a.dtype in FLOATS else torch.float32)
+
+
+@reg("randn_like")
+def _randn_like(a, **k):
+    p = RNG.provider
+    if p is None:
+        raise Unsupported("randn_like on a SymTensor without an RNG provider")
+    return mk(_full(E(p("normal", tuple(a.shape), 0, 1))), a.dtype if a.dtype in FLOATS else torch.float32)
 
 
 # ------------------------------------------------------------------ comparisons / logic
@@ -671,7 +747,11 @@ class _MinMax(tuple):
 
 
 def _mkminmax(emm, better):
-    def h(a, dim=None, keepdim=False, other=None):
+    def h(a, dim=None, keepdim=False, other=None, axis=None):
+        if dim is None and axis is not None:
+            dim = axis
+        if dim is None and other is not None:
+            dim = other
         if isinstance(dim, torch.Tensor) or (dim is not None and not isinstance(dim, int)):
             return mk(_v2(emm, E(a), E(dim)), res_dtype(a, dim))
         if dim is None:
